@@ -40,6 +40,7 @@ def gen_vec(rng, dim, kinds=("float",), hazard=False, mom=None, be="obj"):
     names = C.spell(rng, sys_, mom)
     vals = C.values(rng, sys_, hazard)
     if be == "sym":
+        vals = {k_: (v_ if (v_ == v_ and abs(v_) < 1e18) else 1.0) for k_, v_ in vals.items()}
         coords = {sp: ({"$": "sym", "v": g} if rng.random() < 0.6 else {"$": "symnum", "v": [int(round(vals[g] * 4)) or 1, 4]})
                   for sp, g in zip(names, C.names_of(sys_))}
     else:
@@ -106,6 +107,8 @@ def gen_case(seed, tier="quick"):
                 v = {"phi": round(rng.uniform(-9.5, 9.5), 3), "theta": round(rng.uniform(-4.0, 7.0), 3), "rho": -abs(v) if isinstance(v, float) else v,
                      "tau": -abs(v) if isinstance(v, float) else v, "eta": round(rng.uniform(-12.0, 12.0), 3)}.get(g, v)
             if be == "sym":
+                if v != v or abs(v) > 1e18:
+                    v = 1.0
                 val = {"$": "sym", "v": g + "n"} if rng.random() < 0.5 else {"$": "symnum", "v": [int(round(v * 4)) or 1, 4]}
             else:
                 val = C.numkind(rng, v, kinds)
